@@ -18,3 +18,4 @@ open Uflow.Props.C09
 #print axioms C09_hc_example_hyps
 #print axioms C09_gate_example_client
 #print axioms C09_gate_example_server
+#print axioms SameTx.isSendPending
